@@ -264,6 +264,8 @@ func (c *Ctx) a3Loop(l *mapLoop) []a3Finding {
 					}
 				}
 				out = append(out, a3Finding{"", "accumulated slice " + name, "reviewed: " + reason + extra, ph, "ok"})
+			case c.resultOnlyFeedsSets(l, ph):
+				out = append(out, a3Finding{"", "accumulated slice " + name, "only returned, by an unexported helper whose every call site hands the result straight to NewSet (a set has no order)", ph, "ok"})
 			default:
 				out = append(out, a3Finding{"A3.3", "accumulated slice " + name, "elements are appended in map iteration order and the slice is used after the loop without sorting; no reviewed order-insensitive consumer", ph, "bad"})
 			}
@@ -1249,4 +1251,46 @@ func regexpCompileOf(v ssa.Value) *ssa.Call {
 		return nil
 	}
 	return found
+}
+
+// resultOnlyFeedsSets: after the loop the accumulated slice is only returned; the function is an unexported module
+// function called only statically, and every call site uses the result as the variadic argument of in_toto.NewSet and
+// for nothing else.
+func (c *Ctx) resultOnlyFeedsSets(l *mapLoop, ph *ssa.Phi) bool {
+	f := l.f
+	if f == nil || f.Parent() != nil || f.Object() == nil || f.Object().Exported() || f.Signature.Results().Len() != 1 || ph.Referrers() == nil {
+		return false
+	}
+	for _, r := range *ph.Referrers() {
+		if r.Block() != nil && l.body[r.Block()] {
+			continue
+		}
+		switch r.(type) {
+		case *ssa.Return, *ssa.DebugRef:
+		default:
+			return false
+		}
+	}
+	node := c.CG.Nodes[f]
+	if node == nil || len(node.In) == 0 {
+		return false
+	}
+	for _, e := range node.In {
+		cs := e.Site
+		if cs == nil || cs.Common().StaticCallee() != f || cs.Value() == nil || cs.Value().Referrers() == nil {
+			return false
+		}
+		for _, r := range *cs.Value().Referrers() {
+			switch x := r.(type) {
+			case *ssa.DebugRef:
+			case ssa.CallInstruction:
+				if calleeName(x) != "in_toto.NewSet" || len(x.Common().Args) != 1 || x.Common().Args[0] != ssa.Value(cs.Value()) {
+					return false
+				}
+			default:
+				return false
+			}
+		}
+	}
+	return true
 }
